@@ -55,10 +55,10 @@ def notes_entries(fam):
     for i in range(1, len(blocks) - 1, 2):
         pid, body = blocks[i], " ".join(blocks[i + 1].split())
         def grab(key):
-            mm = re.search(key + r'\W*[:=]\W*"(.*?)"(?=\s*\.?\s*(\*|$|level_note|technique|text))', body)
+            mm = re.search(r'(?<![a-z_])' + key + r'\W*[:=]\W*"(.*?)"(?=\s*\.?\s*(\*|$|level_note|technique|text))', body)
             return mm.group(1).strip() if mm else None
         lvl = re.search(r"level\W*:\W*`?(\w+)`?", body)
-        out[pid] = {"level": lvl.group(1) if lvl else "model_checking", "text": grab("text"), "note": grab("level_note"), "technique": grab("technique")}
+        out[pid] = {"level": lvl.group(1) if lvl else "model_checking", "text": grab("level text") or grab("text"), "note": grab("level_note"), "technique": grab("technique")}
     return out
 
 
